@@ -349,6 +349,9 @@ HEADER_RE = re.compile(r'^(?P<name>[A-Za-z_][A-Za-z_0-9]*)\s*(?:\[(?P<p1>[^\]]*)
 PARAM_CONSTANTS = {'True': True, 'False': False, 'None': None, 'true': True, 'false': False, 'null': None}
 
 
+PATH_ONLY_FIRST = True
+
+
 def _param_value(t: str):
     """value of a rule parameter as the grammar language reads it (`literal`): a quoted string is a str, True/False/None the
     constants, a number an int/float, a bare word or a::b path a str"""
@@ -418,8 +421,15 @@ def parse_ebnf(text: str) -> GrammarIR:
         if not m:
             raise FrontEndError(f'line {ln}: cannot read rule header from {body[:50]!r}')
         ptxt = m.group('p1') or m.group('p2') or m.group('p3') or ''
-        params = tuple(_param_value(p.strip()) for p in ptxt.split(',') if p.strip() and '=' not in p)
-        kwparams = tuple((p.split('=', 1)[0].strip(), _param_value(p.split('=', 1)[1].strip())) for p in ptxt.split(',') if '=' in p)
+        positional = [p.strip() for p in ptxt.split(',') if p.strip() and '=' not in p]
+        keyword = [(p.split('=', 1)[0].strip(), p.split('=', 1)[1].strip()) for p in ptxt.split(',') if '=' in p]
+        # `params: +=first_param {',' +=literal}`, `first_param: path | literal`, `pair: word '=' literal`: a bare a::b path is read only as the FIRST
+        # positional parameter (C13.R3 checks on every run that the grammar file still says so)
+        for t_ in positional[1:] + [v for _, v in keyword]:
+            if PATH_ONLY_FIRST and re.fullmatch(r'[_\w][_\w\d]*(?:::[_\w][_\w\d]*)+', t_):
+                raise FrontEndError(f'rule header `{ptxt}`: the bare path `{t_}` is accepted only as the first positional parameter')
+        params = tuple(_param_value(p) for p in positional)
+        kwparams = tuple((k, _param_value(v)) for k, v in keyword)
         rest = body.lstrip()[m.end():]
         names.add(m.group('name'))
         parsed.append((m.group('name'), params, kwparams, tuple(decorators), m.group('base'), rest, ln))
